@@ -27,7 +27,10 @@ class SetEncoder(encoder.SetEncoder):
 
         if compType.typeId == univ.Choice.typeId and not compType.tagSet:
             if asn1Spec is None:
-                return component.getComponent().tagSet
+                # the tag the encoding starts with: the outermost tag of the
+                # alternative chosen, looking through nested untagged CHOICEs
+                return SetEncoder._componentSortKey(
+                    (component.getComponent(), None))
             else:
                 # TODO: move out of sorting key function
                 names = [namedType.name for namedType in asn1Spec.componentType.namedTypes
@@ -36,11 +39,12 @@ class SetEncoder(encoder.SetEncoder):
                     raise error.PyAsn1Error(
                         '%s components for Choice at %r' % (len(names) and 'Multiple ' or 'None ', component))
 
-                # TODO: support nested CHOICE ordering
-                return asn1Spec[names[0]].tagSet
+                return SetEncoder._componentSortKey(
+                    (component[names[0]], asn1Spec[names[0]]))
 
         else:
-            return compType.tagSet
+            # components are ordered by the outermost tag
+            return compType.tagSet[-1:]
 
 
 TAG_MAP = encoder.TAG_MAP.copy()
